@@ -576,7 +576,7 @@ static int cmd_explore(std::map<std::string, std::string> &a)
     strat[g_cur.cfg.strategy]++;
     for (int k = 0; k < dsim::kFaultKinds; ++k) faults[k] += r.faults[k];
     for (int k = 0; k < 64; ++k) probes[k] += dsim::probe_count(k);
-    const bool nt = r.max_api_overlap >= 2 && r.switches_in_api >= 1;
+    const bool nt = (r.max_api_overlap >= 2 && r.switches_in_api >= 1) || r.forced_nontrivial;
     if (nt) {
       nontrivial++;
       if (hf) {
@@ -584,7 +584,7 @@ static int cmd_explore(std::map<std::string, std::string> &a)
         fwrite(&h, sizeof(h), 1, hf);
       }
     }
-    if (samples.size() < nsamples && (nt || g_prog.scenario == "zipf")) {
+    if (samples.size() < nsamples && nt) {
       char hdr[256];
       snprintf(hdr, sizeof(hdr), "index %" PRIu64 " seed %" PRIu64 " strategy %d steps %" PRIu64 " switches %" PRIu64 " (in API calls %" PRIu64
                                  ") trace_hash %016" PRIx64 "\n",
